@@ -8,6 +8,7 @@ mode = sys.argv[3] if len(sys.argv) > 3 else 'debug'
 with_oracle = len(sys.argv) > 4
 rng = random.Random(int(os.environ.get('SEED', '1')))
 core.prepare_workspace()
+core.harness_build(list(mod.CRATES), release=(mode == "release"))
 core.coq_build([f[:-2] + ".vo" for f in mod.EVAL_FILES])
 cases = mod.generate(rng, "quick")[:n]
 t = time.time()
